@@ -67,7 +67,35 @@ def run(ctx, rep):
         def mk(*a):
             ttl.built_from.append(a)
             return ttl
-        extra = {"__calls__": {"Timeout": mk}, "__methods__": meths, "__max_iter__": 200}
+        class _MLock:
+            """a lock created by the result object: re-acquiring a plain Lock on the same (single) thread of the model never
+            returns"""
+            mi_native = True
+
+            def __init__(self, reentrant):
+                self.reentrant, self.depth = reentrant, 0
+
+            def acquire(self, *a, **k):
+                if self.depth and not self.reentrant:
+                    if a and a[0] is False:
+                        return False
+                    raise MI.Raised("<self-deadlock>")
+                self.depth += 1
+                return True
+
+            def release(self):
+                self.depth -= 1
+
+            def mi_enter(self):
+                self.acquire()
+                return self
+
+            def mi_exit(self, *a):
+                self.release()
+                return False
+        extra = {"__calls__": {"Timeout": mk, "Lock": lambda: _MLock(False), "threading.Lock": lambda: _MLock(False),
+                               "RLock": lambda: _MLock(True), "threading.RLock": lambda: _MLock(True)},
+                 "__methods__": meths, "__max_iter__": 200}
         MI.call_method(meths["__init__"], state, [_Conn()], extra)
         return state, ttl, extra
 
@@ -150,7 +178,11 @@ def run(ctx, rep):
                 bad3.append("a callback appended by a concurrent add_callback() (which saw 'not ready') while the reply is being "
                             "delivered is never invoked: invocations %s" % log6)
     except MI.Raised as r_:
-        bad1.append("delivery raises %s" % r_.name)
+        if r_.name == "<self-deadlock>":
+            bad3.append("a callback that calls add_callback() on its own result blocks for ever on the result's non-reentrant lock "
+                        "(delivery never completes, later callbacks never run, the serving thread hangs)")
+        else:
+            bad1.append("delivery raises %s" % r_.name)
     except RecursionError:
         bad3.append("a callback that registers another callback during delivery re-enters the delivery without bound")
     except AnalysisError as e_:
@@ -415,5 +447,7 @@ def run(ctx, rep):
     K.share(ctx, rep, "c14", lambda o: o.rule == "R14.2", "R15.6", floor=3)
     # "the connection's configured timeout" is what the caller configured: the constructor applies the caller's values as given
     K.share(ctx, rep, "c06", lambda o: o.rule == "R06.9", "R15.6", floor=1)
+    # a pending result nobody else refers to is kept alive by the pending-request table until its reply (and its callbacks) ran
+    K.share(ctx, rep, "c01", lambda o: o.rule == "R01.4" and "callback registered for the request" in o.key, "R15.3", floor=1)
     from . import hygiene as H
     H.private_state(ctx, rep, "R15.3", "rpyc.core.async_.AsyncResult")
